@@ -396,18 +396,31 @@ func runProgram(r *ev.Run, id string, i int) {
 			kept = append(kept, a)
 		}
 		var enabled bool
+		// the context a record arrives with is not a reason to treat it differently: one record in
+		// four comes with a context that is already cancelled or past its deadline
+		hctx, hcancel := context.Background(), func() {}
+		switch g.R.Intn(8) {
+		case 0:
+			hctx, hcancel = context.WithCancel(context.Background())
+			hcancel()
+			r.Count("records_with_cancelled_context", 1)
+		case 1:
+			hctx, hcancel = context.WithDeadline(context.Background(), time.Unix(1, 0))
+			r.Count("records_with_expired_context", 1)
+		}
+		defer hcancel()
 		pn := ev.Guard(func() {
-			enabled = n.h.Enabled(context.Background(), lvl)
+			enabled = n.h.Enabled(hctx, lvl)
 			if viaLogger {
 				args := make([]any, len(sa))
 				for k := range sa {
 					args[k] = sa[k]
 				}
-				slog.New(n.h).Log(context.Background(), lvl, msg, args...)
+				slog.New(n.h).Log(hctx, lvl, msg, args...)
 			} else {
 				rc := slog.NewRecord(t, lvl, msg, 0)
 				rc.AddAttrs(sa...)
-				if err := n.h.Handle(context.Background(), rc); err != nil {
+				if err := n.h.Handle(hctx, rc); err != nil {
 					panic("Handle returned " + err.Error())
 				}
 			}
